@@ -284,3 +284,36 @@ pub fn fixed_msgs(salt: u64) -> Vec<Msg> {
         Msg { pt: Bytes(fill(17, 5, salt ^ 14)), aad: Bytes(vec![]) },
     ]
 }
+
+/// Sequence-counter positions of interest: every byte-carry boundary and both ends
+pub fn boundary_positions() -> Vec<u64> {
+    let mut v = vec![0u64, 1, 2];
+    for k in 1..=8u32 {
+        for d in 0..3u64 {
+            if k < 8 {
+                let b = 1u64 << (8 * k);
+                v.push(b - 1 - d);
+                v.push(b + d);
+            } else {
+                v.push(u64::MAX - d);
+            }
+        }
+    }
+    v.push(u64::MAX - 3);
+    v.push(u64::MAX - 8);
+    v.sort();
+    v.dedup();
+    v
+}
+
+/// A counter position: boundaries, log-uniform, or small
+pub fn position() -> BoxedStrategy<u64> {
+    prop_oneof![
+        4 => select(boundary_positions()),
+        2 => (0u32..64, any::<u64>()).prop_map(|(bits, x)| if bits == 0 { 0 } else { (x >> (64 - bits)) | (1u64 << (bits - 1)) }),
+        2 => 0u64..1000,
+        // shortly before a boundary so that a few seals cross it
+        3 => (select(boundary_positions()), 0u64..6).prop_map(|(b, d)| b.saturating_sub(d)),
+    ]
+    .boxed()
+}
